@@ -88,8 +88,9 @@ CHECKS = {
         cat="exploration", engine="fmtmon_log+refcodec", design="3/C15",
         technique="runtime monitoring: real log writer/reader cross-checked byte-for-byte against an independently written codec; bitwise CRC-32C reference",
         text="Real writer bytes == independent encoder bytes for a boundary grid of (initial length, record length) and random "
-             "mixes; real reader == independent decoder on cuts at (every) byte and on bit/byte/burst/sector alterations "
-             "(no alien record, drop reported, resume at next block); CRC-32C vs bitwise reference on both code paths.",
+             "mixes; real reader == independent decoder on cuts at (every) byte and on bit/byte/burst/sector alterations and on "
+             "type bytes replaced together with a matching CRC (no alien record, drop reported, resume at next block); "
+             "CRC-32C vs bitwise reference on both code paths.",
         note="Trusts harness/refcodec.c as the format definition; legal-cut exemption as stated in DESIGN section 6."),
     "C11": dict(
         cat="fault_enumeration", engine="corruptmon", design="3/C11",
@@ -163,7 +164,8 @@ CHECKS["C17"] = dict(
     technique="runtime monitoring: edit/varint codecs vs independent codec, MANIFEST of real histories replayed independently, crash images of CURRENT switches",
     text="Every field mask and boundary value of version edits round-trips through the real codec and an independent "
          "decoder/encoder; all 2^32 varint32 values in thorough; at every quiescent point of real histories the MANIFEST "
-         "replayed by the independent decoder equals the reported layout and counters; in every crash image CURRENT names "
+         "replayed by the independent decoder equals the reported layout and counters (incl. long-key histories whose reused "
+         "MANIFEST grows across 32 KiB block boundaries); in every crash image CURRENT names "
          "a MANIFEST that replays completely and whose tables exist.",
     note="Trusts harness/refcodec.c; crash model of C02 for the switch window.")
 CHECKS["C18"] = dict(
